@@ -375,8 +375,10 @@ func (b *builder) tx(bs BlockSpec, ts TxSpec, pos int) (*TxTruth, error) {
 			tt.Loaded = append(tt.Loaded, pk)
 			m.LoadedWritableAddresses = append(m.LoadedWritableAddresses, pk[:])
 		}
+		// every metadata payload is unique (a well-formed CAR has distinct CIDs, also for continuation frames)
+		m.LogMessages = []string{fmt.Sprintf("tx %d/%d", seed, ts.SigID)}
 		if ts.MetaPad > 0 {
-			m.LogMessages = []string{fmt.Sprintf("%x", det(seed, "log", ts.SigID, ts.MetaPad))}
+			m.LogMessages = append(m.LogMessages, fmt.Sprintf("%x", det(seed, "log", ts.SigID, ts.MetaPad)))
 		}
 		mb, err := proto.Marshal(m)
 		if err != nil {
